@@ -57,6 +57,8 @@ OPS_T = [
     (['assert_1', 'anypair'], _all('same')),
     (['progress', 2], _all('same')),
     (['map', 'tenth'], {'I': 'F'}),
+    (['scan', 'mulsign', '1.0'], {'I': 'F'}),
+    (['scan', 'mulsign', '1.0', True], {'I': 'F'}),
 ]
 CORE = [0, 6, 9, 10, 16, 17, 19, 29, 31, 33, 35, 39]     # 12-operator core used at depth 3 in the quick tier
 
